@@ -647,20 +647,27 @@ func vf10GenHostile(rt *rapid.T) (*vf10Hostile, string) {
 
 func vf10HostileCase(c *ev.Collector, h *vf10Hostile, r *vf10Run, d *refsocks.Decoded, kindPlan string, keep bool) {
 	kp := strings.SplitN(kindPlan, "|", 2)
-	cls := []string{"socks5-hostile", "socks5-hostile-" + kp[0]}
+	base := "socks5-hostile"
+	if kindPlan == "fuzz" {
+		base = "socks5-fuzz-hostile" // keeps the floors of the rapid unit undiluted
+	}
+	cls := []string{base}
+	if kindPlan != "fuzz" {
+		cls = append(cls, base+"-"+kp[0])
+	}
 	if len(kp) > 1 {
 		cls = append(cls, "socks5-plan-"+kp[1])
 	}
 	switch {
 	case len(h.stream) >= 1<<20:
-		cls = append(cls, "socks5-hostile-1MiB")
+		cls = append(cls, base+"-1MiB")
 	case len(h.stream) >= 65536:
-		cls = append(cls, "socks5-hostile->=64KiB")
+		cls = append(cls, base+"->=64KiB")
 	}
 	if r.err == nil {
-		cls = append(cls, "socks5-hostile-request-returned")
+		cls = append(cls, base+"-request-returned")
 	} else {
-		cls = append(cls, "socks5-hostile-error@"+d.Stage.String())
+		cls = append(cls, base+"-error@"+d.Stage.String())
 	}
 	nt := len(d.Replies) > 0 // got past the method-selection checks
 	if !keep {
